@@ -10,6 +10,12 @@ pub fn build(tier: Tier) -> CheckDef {
     for sk in tiny_skeletons().into_iter().chain(small_shapes()).chain(extnum_shapes()) {
         spaces.push(Box::new(Prefixes { sk, oracle: PrefixCompare::new(true), label: "C18 slice parser" }));
     }
+    let encs: Vec<refmodel::layout::Enc> = if tier == Tier::Quick { vec![refmodel::layout::ENCS[2], refmodel::layout::ENCS[1]] } else { refmodel::layout::ENCS.to_vec() };
+    for e in encs {
+        for sk in rotated_skeletons(e) {
+            spaces.push(Box::new(Prefixes { sk, oracle: PrefixCompare::new(true), label: "C18 slice parser" }));
+        }
+    }
     for sk in sample_skeletons() {
         if tier == Tier::Thorough && sk.bytes.len() <= 16 * 1024 || sk.bytes.len() <= 200 {
             spaces.push(Box::new(Prefixes { sk, oracle: PrefixCompare::new(false), label: "C18 slice parser" }));
